@@ -652,6 +652,13 @@ func parseSearchQuery(query, countryCode string, withLogin bool) ([][]string, []
 			}
 		}
 	}
+	if len(and) > 0 && len(or) > 0 {
+		// "aaa bbb, ccc" means "(bbb OR ccc) AND aaa": next to required terms the OR group is itself
+		// required, i.e. at least one of its terms must match. The adapters treat the second list as
+		// a hint for ranking once a required term is present.
+		and = append(and, or)
+		or = nil
+	}
 	return and, or, nil
 }
 
